@@ -87,6 +87,9 @@ def grammar_corpus():
     c["unused_terminal"] = shape("N0", "ab", "N0 -> a N0", "N0 -> a")
     c["sss"] = shape("N0", "a", "N0 -> N0 N0 N0", "N0 -> a", "N0 ->")
     c["x_unary_null"] = shape("N0", "ab", "N0 -> N1", "N1 -> N2", "N2 ->", "N2 -> a N0", "N1 -> b")
+    # a pure terminal class (all rules X -> t) one of whose terminals is also written literally inside a longer rule: the class
+    # must not be reused as the preterminal of that literal (seeded changes C06-3, C01-6)
+    c["terminal_class"] = shape("N0", "abc", "N0 -> N1 c N2", "N0 -> a N2", "N1 -> a", "N1 -> b", "N2 -> c", "N2 -> b c")
     # indirect left recursion through two nonterminals with a further left corner on the side, in several rule orders (the parsers
     # number nonterminals in rule order, and left-corner closures are traversed in that order): a closure that is memoised before
     # its cycle is complete loses predictions (strengthened after seeded changes C01-4, C02-3, C05-4)
